@@ -67,15 +67,17 @@ class Goal(object):
         return False
 
     def get_logic(self) -> Logic:
-        logic = get_logic(self.term())
-        if logic <= LIA:
+        # The comparison operators depend only on the sort of the
+        # objective: e.g. a MaxSMT goal with bit-vector soft clauses
+        # is an integer (or real) objective
+        term_type = self.term().get_type()
+        if term_type.is_int_type():
             return LIA
-        elif logic <= LRA:
+        elif term_type.is_real_type():
             return LRA
-        elif logic <= BV:
+        elif term_type.is_bv_type():
             return BV
-        else:
-            return logic
+        return get_logic(self.term())
 
     @property
     def signed(self):
